@@ -114,6 +114,8 @@ def opLtk (args : List String) (impl : String) : Verdict :=
       else if kvLookup imp "pk" ≠ hexOf ltpk then l1 label "C10: public key is not the RFC 8032 public key of the seed"
       else if kvLookup imp "srv" ≠ hexOf srv then l1 label "C10: SRV is not SHA-512(0xff || pk)[0..32]"
       else if (kvLookup imp "pubs").splitOn "," ≠ [hexOf ltpk, hexOf ltpk, hexOf ltpk] then l1 label "C10: Server::get_public_key differs between instances of the same seed"
+      else if kvLookup imp "srvprobe" ≠ "101010" then
+        l1 label ("C10: a Server instance does not treat SHA-512(0xff || pk)[0..32] as its own SRV value when matching requests (answered own/other per instance: " ++ kvLookup imp "srvprobe" ++ ")")
       else if kvLookup imp "display" ≠ hexOf ltpk then l1 label "C10: Display of the long-term key is not its public key"
       else
         let certs := [(RT.Proto.draft13, kvLookup imp "cert13"), (RT.Proto.classic, kvLookup imp "cert0"), (RT.Proto.draft13, kvLookup imp "cert13b")]
